@@ -321,8 +321,15 @@ func genMut(t *rapid.T, adapter bool) Mut {
 			m.Val = pick(t, "val", []string{"nan", "inf", "ff", "zero"})
 		}
 	case "cfg":
-		m.Op = pick(t, "cfgop", []string{"set", "set", "set", "set", "set", "set", "arch", "rope", "raw"})
+		m.Op = pick(t, "cfgop", []string{"set", "set", "set", "set", "set", "set", "arch", "rope", "raw", "alias", "alias"})
 		switch m.Op {
+		case "alias":
+			// the value moves to the member's other spelling (hidden_size -> n_embd ...): the usual member is absent
+			m.Key = pick(t, "key", []string{"hidden_size", "num_attention_heads", "num_hidden_layers", "hidden_size"})
+			m.Val = pick(t, "val", append([]string{"same", "same"}, cfgVals...))
+			if rapid.Bool().Draw(t, "llama3rope") {
+				m.T = 1 // together with llama3 rope scaling (the rope factor table is sized from the embedding length)
+			}
 		case "set":
 			m.Key = pick(t, "key", cfgKeys)
 			m.Val = pick(t, "val", cfgVals)
